@@ -229,6 +229,24 @@ func (s *JavaFullListener) EnterFormalParameter(ctx *parser.FormalParameterConte
 	formalParameters[ctx.VariableDeclaratorId().GetText()] = ctx.TypeType().GetText()
 }
 
+// an explicitly typed lambda parameter is in scope inside its lambda only: what it hid is visible again afterwards
+var lambdaScopes []map[string]string
+
+func (s *JavaFullListener) EnterLambdaExpression(ctx *parser.LambdaExpressionContext) {
+	outer := make(map[string]string, len(formalParameters))
+	for name, typ := range formalParameters {
+		outer[name] = typ
+	}
+	lambdaScopes = append(lambdaScopes, outer)
+}
+
+func (s *JavaFullListener) ExitLambdaExpression(ctx *parser.LambdaExpressionContext) {
+	if n := len(lambdaScopes); n > 0 {
+		formalParameters = lambdaScopes[n-1]
+		lambdaScopes = lambdaScopes[:n-1]
+	}
+}
+
 func (s *JavaFullListener) EnterFieldDeclaration(ctx *parser.FieldDeclarationContext) {
 	declarators := ctx.VariableDeclarators()
 	typeType := declarators.GetParent().GetChild(0).(*parser.TypeTypeContext)
@@ -304,6 +322,7 @@ func (s *JavaFullListener) EnterAnnotation(ctx *parser.AnnotationContext) {
 func initMethodScope() {
 	localVars = make(map[string]string)
 	formalParameters = make(map[string]string)
+	lambdaScopes = nil
 }
 
 func (s *JavaFullListener) EnterConstructorDeclaration(ctx *parser.ConstructorDeclarationContext) {
